@@ -22,9 +22,23 @@ def run(tier):
     spec = os.path.join(ROOT, "specs", "logformat")
     exe = build_driver("logformat", os.path.join(ROOT, "harness", "logformat_driver.cpp"), "asan",
                        lib_subdirs=("log", "common", "format", "prog_args", "appl"))
+    pending, batch = [], [0]
+
+    def replay():
+        # one driver run + one validation per batch of sequences (the driver's output is capped at 400 MB)
+        if not pending:
+            return
+        batch[0] += 1
+        tag = "R%d" % batch[0]
+        script = os.path.join(c.wd, "script%d.ndjson" % batch[0])
+        write_script(pending, script)
+        tr = os.path.join(c.wd, "replay%d.ndjson" % batch[0])
+        c.drive(exe, ["--script", script], tr, tag, timeout=600)
+        c.validate(spec, "TraceLogFormat", "TraceLogFormat.cfg", tr, tag)
+        del pending[:]
+
     for suffix, must in SLICES:
         cfg = "MCLogFormat_%s%s.cfg" % (tier, suffix)
-        tag = "R" + (suffix or "_kinds")
         r, edges = c.model(spec, "MCLogFormat", cfg)
         if r.violation:
             continue
@@ -35,11 +49,10 @@ def run(tier):
         seqs, nedges, nstates, _ = cover(edges)
         c.notes.append("%s: %d distinct edges over %d states covered by %d replay sequences; per action: %s" % (
             cfg, nedges, nstates, len(seqs), dict(sorted(taken.items()))))
-        script = os.path.join(c.wd, "script%s.ndjson" % suffix)
-        write_script(seqs, script)
-        tr = os.path.join(c.wd, "replay%s.ndjson" % suffix)
-        c.drive(exe, ["--script", script], tr, tag, timeout=600)
-        c.validate(spec, "TraceLogFormat", "TraceLogFormat.cfg", tr, tag)
+        if sum(len(q) + 1 for q in pending) + sum(len(q) + 1 for q in seqs) > 400000:
+            replay()
+        pending.extend(seqs)
+    replay()
     cases, ops = (250, 40) if tier == "quick" else (6000, 50)
     tr2 = os.path.join(c.wd, "random.ndjson")
     c.drive(exe, ["--random", "--seed", SEED, "--cases", cases, "--ops", ops], tr2, "T", timeout=900)
